@@ -183,12 +183,14 @@ def resize(r, F):
                   "resize never stores the new shard capacity", ln=f.lo)
         r.require(bool(evs), f, "evict(new)", "evict is called after the algorithm accepted the new capacity", "resize never evicts down to the new capacity", ln=f.lo)
         for g, b in evs:
-            # the evict target and the stored capacity are the same value (the closure's shard_capacity upvar)
-            tsl = backslice(g, b.term.args[1], "prov")
-            csl = [backslice(g2, u["stmt"].rv.ops[0], "prov") for g2, u in caps if g2 is g]
-            same = any(tsl.upvars & c.upvars for c in csl) or any((tsl.args & c.args) for c in csl)
-            r.require(same, g, "evict-target==new-capacity", "evict target and stored capacity are the same upvar %s" % sorted(tsl.upvars),
-                      "resize evicts to a different value than the capacity it stores", ln=b.term.ln)
+            # the evict target and the stored capacity are the same value: equal affine forms (memory-aware: a capacity read after the
+            # store resolves to the stored value, one read before it to the old capacity)
+            from sa import affine
+            tform = affine.affine(g, b.term.args[1], depth=1, pos=(b.idx, len(g.blocks[b.idx].stmts)))
+            cforms = [affine.store_form(g2, (u["block"], u["idx"], u["stmt"])) for g2, u in caps if g2 is g]
+            same = any(cf is not None and cf == tform for cf in cforms)
+            r.require(same, g, "evict-target==new-capacity", "evict target %s == stored capacity %s" % (affine.pretty(tform), [affine.pretty(x) for x in cforms]),
+                      "resize evicts to `%s` but stores `%s` as the shard capacity" % (affine.pretty(tform), [affine.pretty(x) for x in cforms]), ln=b.term.ln)
             # unconditional: once the algorithm accepted the new capacity every path evicts down to it (growing can still have to
             # evict: a shard may legitimately sit above its old capacity — oversized entry, entries that were pinned)
             r.require(g.must_pass(0, [b.idx]), g, "evict(new) on every path", "the bound is re-established whether the capacity shrank or grew",
